@@ -11,7 +11,7 @@ package interp
 // next to a float32 midpoint).
 //@ -- isC(v): the value holds a go/constant value (the dynamic type test of v.Interface())
 //@ func (check typecheck) convertConst(v, t) (r, err)
-//@   props C03
+//@   props C03 C02
 //@   ints math
 //@   opt safety = off
 //@   requires [assume] t != nil
@@ -205,3 +205,27 @@ package interp
 //@   requires [assume] n != nil && len(n.child) >= 2 && n.child[1] != nil
 //@   ensures imaginary-part: old(n.child[1].rval.IsValid()) ==> rvFloat(n.rval) == cimag(old(rvComplex(n.child[1].rval)))
 //@   canary old(n.child[1].rval.IsValid()) ==> rvFloat(n.rval) == creal(old(rvComplex(n.child[1].rval)))
+
+// The default type of an untyped constant (Go spec, Constants): by the kind of its VALUE when the value is
+// known — an integer value is an int (int32 for a rune constant) whatever arithmetic produced it, so
+// 1.0 << 3 is an int — and by the category of the untyped type otherwise.
+//@ trusted func (s *scope) getType(name) (r)
+//@   pure
+//@ func (t *itype) defaultType(v, sc) (r)
+//@   props C03
+//@   opt safety = off
+//@   opt opaque-calls = *
+//@   opt opaque-havoc = none
+//@   requires [assume] t != nil && sc != nil
+//@   let known: v.IsValid() && v.Type().Implements(constVal)
+//@   let kind: constKind(cOf(v))
+//@   requires [assume] the-type-test-is-the-dynamic-type: known ==> assertok_go_constant_Value(rvIface(v))
+//@   requires [assume] named-basic-types-are-typed: !sc.getType("string").untyped && !sc.getType("bool").untyped && !sc.getType("int").untyped && !sc.getType("int32").untyped && !sc.getType("float64").untyped && !sc.getType("complex128").untyped
+//@   ensures typed-type-is-its-own-default: !old(t.untyped) ==> r == t
+//@   ensures integer-value-defaults-to-int: old(t.untyped) && known && kind == constant.Int ==> r == sc.getType(ite(old(t.cat) == int32T, "int32", "int"))
+//@   ensures float-value-defaults-to-float64: old(t.untyped) && known && kind == constant.Float ==> r == sc.getType("float64")
+//@   ensures complex-value-defaults-to-complex128: old(t.untyped) && known && kind == constant.Complex ==> r == sc.getType("complex128")
+//@   ensures string-value-defaults-to-string: old(t.untyped) && known && kind == constant.String ==> r == sc.getType("string")
+//@   ensures bool-value-defaults-to-bool: old(t.untyped) && known && kind == constant.Bool ==> r == sc.getType("bool")
+//@   ensures without-a-value-the-category-decides: old(t.untyped) && !known && (old(t.cat) == intT || old(t.cat) == float64T || old(t.cat) == complex128T || old(t.cat) == stringT || old(t.cat) == boolT) ==> r == sc.getType(ite(old(t.cat) == intT, "int", ite(old(t.cat) == float64T, "float64", ite(old(t.cat) == complex128T, "complex128", ite(old(t.cat) == stringT, "string", "bool")))))
+//@   canary r == t
